@@ -1342,6 +1342,10 @@ func w13GenCaseVariant(t *rapid.T, st *vStat, timers bool) *w13Case {
 			g.exclude(why)
 			continue
 		}
+		if w13TooManyDbs(cn.bytes()) {
+			g.exclude("stream can touch more than 8 databases (resource question: every db costs MBs)")
+			continue
+		}
 		if len(cn.Mut) > 0 || cn.Kind == "raw" {
 			if w := w13AdminWord(cn.bytes()); w != "" {
 				g.exclude("mutated/raw stream contains administrative command word " + w)
@@ -1647,6 +1651,10 @@ func FuzzC13_Wire(f *testing.F) {
 		}
 		if why := w13KnownKeys().w13RawKnown(data); why != "" {
 			st.Exclude(why)
+			return
+		}
+		if w13TooManyDbs(data) {
+			st.Exclude("stream can touch more than 8 databases (resource question: every db costs MBs)")
 			return
 		}
 		// every input runs on a fresh instance, so a saved crasher reproduces on its own
